@@ -126,6 +126,7 @@ type Contracts struct {
 	Axioms   []Clause
 	Ghosts   map[string]*GhostVar
 	GhostOrder []string
+	NonNil   map[string][]string // heap key (E|..., MV|..., B|*T) -> props: pointers stored there are never nil
 	Regions  map[string]string // type name -> region
 	PureNames map[string]*FuncContract
 	Guarded  map[string]string // field key "T.f" -> mutex field "T.m"
@@ -146,7 +147,7 @@ var countedRe = regexp.MustCompile(`calls\("([^"]+)"\)`)
 
 func ParseContractsFile(path string) (*Contracts, error) {
 	cs := &Contracts{Path: path, Funcs: map[string]*FuncContract{}, TypeInvs: map[string]*TypeInv{},
-		Specs: map[string]*SpecFn{}, Ghosts: map[string]*GhostVar{}, Regions: map[string]string{}, PureNames: map[string]*FuncContract{}, Guarded: map[string]string{}, Counted: map[string]bool{}, Sinks: map[string][]string{}, FreshOnlyProps: map[string][]string{}, Monotone: map[string]bool{}, Preserved: map[string][]string{}, Callers: map[string][]string{}, CallersProps: map[string][]string{}, Writers: map[string][]string{}, WritersProps: map[string][]string{}}
+		Specs: map[string]*SpecFn{}, Ghosts: map[string]*GhostVar{}, Regions: map[string]string{}, NonNil: map[string][]string{}, PureNames: map[string]*FuncContract{}, Guarded: map[string]string{}, Counted: map[string]bool{}, Sinks: map[string][]string{}, FreshOnlyProps: map[string][]string{}, Monotone: map[string]bool{}, Preserved: map[string][]string{}, Callers: map[string][]string{}, CallersProps: map[string][]string{}, Writers: map[string][]string{}, WritersProps: map[string][]string{}}
 	f, err := os.Open(path)
 	if err != nil {
 		if os.IsNotExist(err) {
@@ -396,6 +397,14 @@ func ParseContractsFile(path string) (*Contracts, error) {
 			props, r := parseProps(rest)
 			for _, n := range strings.Fields(r) {
 				cs.Sinks[n] = props
+			}
+			cur, curType = nil, nil
+		case "nonnil":
+			// nonnil {props} key... : the pointers held under these keys (slice elements E|..., map values MV|...,
+			// interface boxes B|*T) are never nil: proved at every write, used at every read
+			props, r := parseProps(rest)
+			for _, k := range strings.Fields(r) {
+				cs.NonNil[k] = props
 			}
 			cur, curType = nil, nil
 		case "freshonly":
